@@ -536,18 +536,21 @@ pub fn run(line: &str) -> Option<(String, Vec<String>)> {
     if let Some(col) = cc {
         let transparent = straight && prec.val(col[3]) == 0.0;
         let mut seen: Vec<Option<u32>> = vec![None; n];
-        let mut uniform = true;
+        let mut uniform = vec![true; n];
         let mut near = vec![true; n];
         for (li, l) in levels.iter().enumerate() {
             for y in 0..l.h {
                 for x in 0..l.w {
                     for k in 0..n {
                         let v = l.at(x, y, k);
-                        match seen[k] {
-                            None => seen[k] = Some(v),
-                            Some(s) => {
-                                if s != v {
-                                    uniform = false
+                        // the result token describes the generated levels only
+                        if li > 0 {
+                            match seen[k] {
+                                None => seen[k] = Some(v),
+                                Some(s) => {
+                                    if s != v {
+                                        uniform[k] = false
+                                    }
                                 }
                             }
                         }
@@ -573,14 +576,16 @@ pub fn run(line: &str) -> Option<(String, Vec<String>)> {
                 }
             }
         }
-        const_tok = (0..n)
-            .map(|k| match prec {
-                Prec::F32 if near[k] => col[k].to_string(),
-                _ if uniform => seen[k].unwrap_or(0).to_string(),
-                _ => "varies".to_string(),
-            })
-            .collect::<Vec<_>>()
-            .join(":");
+        if levels.len() > 1 {
+            const_tok = (0..n)
+                .map(|k| match prec {
+                    Prec::F32 if near[k] => col[k].to_string(),
+                    _ if uniform[k] => seen[k].unwrap_or(0).to_string(),
+                    _ => "varies".to_string(),
+                })
+                .collect::<Vec<_>>()
+                .join(":");
+        }
     }
 
     // (3) opacity
